@@ -336,6 +336,8 @@ thread_local! {
   static CURRENT_CASE: std::cell::RefCell<Option<(String, String, String)>> = const { std::cell::RefCell::new(None) }; // (property, engine, scenario json)
 }
 static CURRENT_ENGINE: Mutex<String> = Mutex::new(String::new());
+/// the case most recently started by any driver thread (fallback for faults on helper threads)
+static ANY_CASE: Mutex<Option<(String, String, String)>> = Mutex::new(None);
 
 pub fn set_current_engine(name: &str) {
   *CURRENT_ENGINE.lock().unwrap() = name.to_string();
@@ -354,6 +356,7 @@ thread_local! {
 /// (catchable) panics are only remembered (the last few messages go into the report) and are
 /// judged by the engines' own `catch_unwind` sites.
 pub fn install_abort_guard(quiet: bool) {
+  install_crash_guard();
   let prev = std::panic::take_hook();
   std::panic::set_hook(Box::new(move |info| {
     let msg = info.payload().downcast_ref::<&str>().map(|s| s.to_string()).or_else(|| info.payload().downcast_ref::<String>().cloned()).unwrap_or_else(|| "panic".into());
@@ -393,6 +396,77 @@ pub fn install_abort_guard(quiet: bool) {
       prev(info);
     }
   }));
+}
+
+// ---------------------------------------------------------------------------------------------
+// Crash guard: a memory fault (SIGSEGV / SIGBUS / SIGILL) or abort() raised while a generated
+// case is running would kill the check without a verdict.  On the unchanged tree no case
+// faults; a fault inside the code under test during legal API use (a value read from a slot
+// that was never written, a freed node dereferenced, unbounded recursion) is a defect.  The
+// handler saves the scenario that was running on the faulting thread as the replay, prints the
+// VIOLATION line and exits 1.  Each driver thread gets an alternate signal stack so that stack
+// overflows are reported too.
+// ---------------------------------------------------------------------------------------------
+
+extern "C" fn crash_handler(sig: libc::c_int, _info: *mut libc::siginfo_t, _ctx: *mut libc::c_void) {
+  let name = match sig {
+    libc::SIGSEGV => "SIGSEGV",
+    libc::SIGBUS => "SIGBUS",
+    libc::SIGILL => "SIGILL",
+    libc::SIGABRT => "SIGABRT",
+    _ => "signal",
+  };
+  // not async-signal-safe in the strict sense, but the process is lost anyway; if this itself
+  // faults the default action kills the process (SA_RESETHAND)
+  let mut case = CURRENT_CASE.try_with(|c| c.try_borrow().ok().and_then(|c| c.clone())).ok().flatten();
+  let mut helper = false;
+  if case.is_none() {
+    // a thread spawned by the case (real-thread engines): blame the most recently started case
+    case = ANY_CASE.try_lock().ok().and_then(|g| g.clone());
+    helper = true;
+  }
+  if let Some((property, engine, scenario)) = case {
+    let rep = Replay {
+      property: property.clone(),
+      engine,
+      signature: format!("crash/{name}"),
+      message: format!("{name} while this generated case was running{}: memory fault, stack overflow or abort inside the code under test", if helper { " (fault on a helper thread; the case is the most recently started one)" } else { "" }),
+      seed: 0,
+      scenario: serde_json::from_str(&scenario).unwrap_or(Value::Null),
+    };
+    let p = write_replay(&rep);
+    println!("  {} :: {}", rep.signature, rep.message);
+    println!("VIOLATION property={} replay={}", property, p.display());
+    unsafe { libc::_exit(1) };
+  }
+  eprintln!("{name} outside a generated case (harness or infrastructure fault)");
+  unsafe { libc::_exit(2) };
+}
+
+/// Give the calling thread an alternate signal stack (needed to report stack overflows).
+pub fn install_altstack() {
+  const SZ: usize = 1 << 17;
+  unsafe {
+    let mem = libc::mmap(std::ptr::null_mut(), SZ, libc::PROT_READ | libc::PROT_WRITE, libc::MAP_PRIVATE | libc::MAP_ANONYMOUS, -1, 0);
+    if mem == libc::MAP_FAILED {
+      return;
+    }
+    let ss = libc::stack_t { ss_sp: mem, ss_flags: 0, ss_size: SZ };
+    libc::sigaltstack(&ss, std::ptr::null_mut());
+  }
+}
+
+pub fn install_crash_guard() {
+  install_altstack();
+  unsafe {
+    let mut sa: libc::sigaction = std::mem::zeroed();
+    sa.sa_sigaction = crash_handler as usize;
+    sa.sa_flags = libc::SA_SIGINFO | libc::SA_ONSTACK | libc::SA_RESETHAND;
+    libc::sigemptyset(&mut sa.sa_mask);
+    for s in [libc::SIGSEGV, libc::SIGBUS, libc::SIGILL, libc::SIGABRT] {
+      libc::sigaction(s, &sa, std::ptr::null_mut());
+    }
+  }
 }
 
 // ---------------------------------------------------------------------------------------------
@@ -473,6 +547,7 @@ where
       .name(format!("shard{shard}"))
       .stack_size(64 << 20)
       .spawn(move || {
+        install_altstack();
         let seed = mix(mix(ctx.seed, stream), shard as u64);
         let cfg = Config {
           cases: per as u32,
@@ -496,7 +571,11 @@ where
           let counting = !failed.get();
           {
             let js = serde_json::to_string(&s).unwrap_or_default();
-            CURRENT_CASE.with(|c| *c.borrow_mut() = Some((ctx.property.clone(), CURRENT_ENGINE.lock().unwrap().clone(), js.clone())));
+            let cc = (ctx.property.clone(), CURRENT_ENGINE.lock().unwrap().clone(), js.clone());
+            if let Ok(mut g) = ANY_CASE.try_lock() {
+              *g = Some(cc.clone());
+            }
+            CURRENT_CASE.with(|c| *c.borrow_mut() = Some(cc));
             let mut g = beats[shard].lock().unwrap();
             g.0 = Instant::now();
             g.1 = Some(js);
